@@ -59,6 +59,9 @@ func crashAndRestart(c *lab.Case, res *lab.Result, p int, pick func(int) int) ([
 	combined := append([]lab.Event(nil), res.Events[:p]...)
 	combined = append(combined, lab.Event{Kind: lab.EvNote, Src: -1, Seq: -1, Info: fmt.Sprintf("CRASH at prefix %d, restart on snapshot %d", p, snapNo)})
 	for _, e := range r2.Events {
+		if e.Inst != 0 {
+			e.Inst += 1000 // plugin instances of the restarted process are different objects
+		}
 		combined = append(combined, e)
 	}
 	for i := range combined {
@@ -90,8 +93,16 @@ func c03Restart(c *lab.Case, m *lab.Model, res *lab.Result, p int, pick func(int
 				Detail: fmt.Sprintf("source %s reopened with %q but the store held %q at the crash", e.Comp, e.Pos, want)})
 		}
 	}
-	if !r2.Wedged && r2.FinalStatus.String() == "UserStopped" && h.AllEmitted() {
-		vs = append(vs, h.CheckAllHandled("C03")...)
+	// Nothing is skipped: what the restarted run acks is handled (across both runs) and
+	// continues exactly behind the position it was opened with. Records that were read but not
+	// yet handled when the run ends stay unacked and are simply read again later.
+	for _, v := range h.CheckC01() {
+		v.Prop, v.Key = "C03", "C03/restart/acked-unhandled/"+v.Key
+		vs = append(vs, v)
+	}
+	for _, v := range h.CheckC04() {
+		v.Prop, v.Key = "C03", "C03/restart/ack-order/"+v.Key
+		vs = append(vs, v)
 	}
 	return vs, combined, r2
 }
